@@ -430,8 +430,18 @@ pub fn arb_item(d: &mut D, names: &[String], depth: usize) -> String {
                     items.push(arb_item(d, names, depth + 1));
                 }
             }
+            // nested bodies are usually well-formed lists, sometimes not meta syntax at all
+            if d.ratio(1, 10) {
+                items.push(token_soup(d, 1));
+            }
+            let sep = match d.below(12) {
+                0 => " ",
+                1 => ",, ",
+                2 => "; ",
+                _ => ", ",
+            };
             let (o, c) = *d.pick(&[("(", ")"), ("(", ")"), ("[", "]"), ("{", "}")]);
-            format!("{}{}{}{}{}", name, o, items.join(", "), if d.ratio(1, 6) { "," } else { "" }, c)
+            format!("{}{}{}{}{}", name, o, items.join(sep), if d.ratio(1, 6) { "," } else { "" }, c)
         }
         _ => {
             // deep nesting
